@@ -950,15 +950,22 @@ func (e *Exec) evalCall(x ECall, env *Env) Val {
 	if sf.Body != nil && !(sf.Opaque && !e.reveal[sf.Name]) {
 		// macro expansion in the current state
 		n := &Env{e: e, vars: map[string]Val{}, st: env.st, old: env.old, fr: nil, result: env.result, bound: env.bound, inOld: env.inOld, obs: nil, home: env.home}
+		var sfPkg *types.Package
+		if sf.Pkg != "" {
+			if pk := e.P.ByPath[sf.Pkg]; pk != nil {
+				n.home = pk.Types
+				sfPkg = pk.Types
+			}
+		}
 		var lets []string
 		for i, p := range sf.Params {
 			v := arg(i)
 			if v.S == "nil" {
-				s, ty := e.resolveType(p.Type, nil)
+				s, ty := e.resolveType(p.Type, sfPkg)
 				v = e.nilOf(Val{S: s, Ty: ty})
 			}
 			if v.Ty == nil {
-				if _, ty := e.resolveType(p.Type, nil); ty != nil {
+				if _, ty := e.resolveType(p.Type, sfPkg); ty != nil {
 					v.Ty = ty
 				}
 			}
